@@ -1,5 +1,34 @@
+(** * HubFee (C05): the peg-recovery fee is bounded and never over-collects past the 1:1 peg.
+
+    Notation: after [slashing] the state is [s]; B = hs_bb s (bSei backing), S = bSei supply read
+    from the world, Q = cb_reqb (pending bSei requests of the open batch), C = S + Q (claims),
+    r = hs_ber s, thr = hp_thr, f = hp_pegfee.  "Synchronised" means r = rate_of B (S + Q).
+
+    Main theorems
+    - [rate_below_one], [fee_branch_underbacked]: a synchronised rate below 1 (in particular
+      below a threshold <= 1) means 0 < B < C.
+    - [slashing_synced]: [query_actual_state] returns a synchronised bSei rate whenever it
+      recomputes (some delegation exists and something is booked).
+    - [bond_peg_fee], [unbond_peg_fee], [conv_st_b_peg_fee], [conv_b_st_peg_fee]: for a successful
+      execution of each of the four fee-charging handlers: credited = no-fee amount - fee;
+      fee = 0 when r >= thr; otherwise fee = min (no-fee amount * f / D) (restoring cap);
+      fee <= no-fee amount * f / D; the emitted Mint/Burn amounts and the new backing; and, when the
+      pool starts synchronised and under-backed (r < 1, or B <= C), backing after <= claims after
+      (exactly for bond / unbond / stSei->bSei; + 1 base unit for bSei->stSei under amount <= 10^18),
+      claims after including the effect of the emitted Mint/Burn on the supply.
+    - [unbond_final_no_overshoot]: the same on the final state of an unbond that also closes the
+      batch (epoch undelegation), + 1 base unit, under claims <= 10^18.
+    - [bond_mint_safe], [unbond_awf_safe], [conv_awf_safe] (and the [fee_*_block_safe] lemmas): under
+      E1 magnitudes and parameters in [0,1] the fee computations cannot fail when the rate is
+      synchronised - in particular the raw subtraction [claims + mint - (backing + payment)].
+    - Examples: [hf_world_nonvacuous], [conv_b_st_restoring_cap_nonvacuous],
+      [conv_b_st_proportional_cap_nonvacuous], [bond_caps_nonvacuous], [unbond_caps_nonvacuous],
+      [conv_st_b_nonvacuous], [conv_b_st_dust_tight] (the + 1 is attained),
+      [F1_former_cap_overshoot_witness] (the cap used before the fix in /repo overshoots). *)
 From Krp Require Import Tactics Prelude Fixed FMap Types Env Registry Cw20 Hub Inv HubFrame.
 Open Scope N_scope.
+
+(** ** what a successful arithmetic primitive returned *)
 
 Lemma mulU_some a r x : mulU a r = Some x -> x = a * r / D.
 Proof.
@@ -73,16 +102,18 @@ Proof.
   apply N.mul_le_mono_l. exact Hle.
 Qed.
 
-(** two floors ([r = floor(B*D/c)], [q = floor(x*r/D)]) lose less than two units of [c] *)
-Lemma floor_pair B c x : c <> 0 -> x <= D -> x * B < (x * (B * D / c) / D + 2) * c.
+
+(** the fee is charged only below the threshold; with threshold <= 1 the pool is then strictly
+    under-backed *)
+Lemma fee_branch_underbacked B C r thr :
+  r = rate_of B C -> r < thr -> thr <= D -> 0 < B /\ B < C.
+Proof. intros Hr Hlt Ht. apply rate_below_one. rewrite <- Hr. lia. Qed.
+
+(** ** rounding: two floors lose at most one base unit *)
+Lemma floor_pair_abs B c x r q :
+  c <> 0 -> x <= D -> B * D < (r + 1) * c -> x * r < (q + 1) * D -> x * B < (q + 2) * c.
 Proof.
-  intros Hc Hx. pose proof D_pos as HD.
-  set (r := B * D / c). set (q := x * r / D).
-  assert (H1 : x * r < (q + 1) * D).
-  { unfold q. pose proof (N.mul_succ_div_gt (x * r) D D_nz) as H. lia. }
-  assert (H2 : B * D < (r + 1) * c).
-  { unfold r. pose proof (N.mul_succ_div_gt (B * D) c Hc) as H. lia. }
-  (* x*B*D < x*(r+1)*c = x*r*c + x*c < (q+1)*D*c + D*c *)
+  intros Hc Hx H2 H1. pose proof D_pos as HD.
   assert (H3 : x * B * D <= x * r * c + x * c).
   { destruct (N.eq_dec x 0) as [->|Hx0]; [lia|].
     assert (x * (B * D) <= x * ((r + 1) * c)) by (apply N.mul_le_mono_l; lia). lia. }
@@ -91,32 +122,793 @@ Proof.
   assert (H6 : x * B * D < (q + 2) * c * D) by lia.
   apply N.mul_lt_mono_pos_r in H6; [exact H6 | exact HD].
 Qed.
+Lemma floor_gt a b : b <> 0 -> a < (a / b + 1) * b.
+Proof.
+  intros Hb. pose proof (N.mul_succ_div_gt a b Hb) as H.
+  rewrite <- N.add_1_r in H. rewrite N.mul_comm. exact H.
+Qed.
 
-(** redeeming [x] tokens for [q = floor(x*r/D)] coins out of backing [B <= c] when [a >= x] claims
-    disappear and the part withheld is at most what the remaining holders lack:
-    backing ends at most one unit above the remaining claims *)
+Lemma floor_pair B c x : c <> 0 -> x <= D -> x * B < (x * (B * D / c) / D + 2) * c.
+Proof.
+  intros Hc Hx. apply (floor_pair_abs B c x (B * D / c)); [exact Hc | exact Hx | |].
+  - apply floor_gt. exact Hc.
+  - apply floor_gt. exact D_nz.
+Qed.
+
+Lemma redeem_dust_abs B c a x q :
+  B <= c -> a <= c -> x <= a -> x * B < (q + 2) * c ->
+  (a - x) * B <= (c - B) * (c - a) ->
+  B - q <= (c - a) + 1.
+Proof.
+  intros HB Ha Hx Hq Hfee.
+  destruct (N.le_gt_cases B q) as [Hle|Hgt]; [lia|].
+  assert (exists g, c = B + g) as [g Hg] by (exists (c - B); lia).
+  assert (exists R, c = a + R) as [R HR] by (exists (c - a); lia).
+  assert (exists e, a = x + e) as [e He] by (exists (a - x); lia).
+  assert (exists t, B = q + t) as [t Ht] by (exists (B - q); lia).
+  replace (c - B) with g in Hfee by lia. replace (c - a) with R in * by lia.
+  replace (a - x) with e in Hfee by lia. replace (B - q) with t by lia.
+  assert (Hc : 0 < c) by lia.
+  assert (Hk : t * c < (R + 2) * c).
+  { assert (H1 : B * c <= c * R + x * B).
+    { assert (E1 : B * c = B * x + B * e + B * R) by (rewrite HR, He; lia).
+      assert (E2 : c * R = B * R + g * R) by (rewrite Hg; lia). lia. }
+    assert (E3 : t * c + q * c = B * c) by (rewrite Ht; lia).
+    lia. }
+  apply N.mul_lt_mono_pos_r in Hk; lia.
+Qed.
+
 Lemma redeem_dust B c a x :
   c <> 0 -> B <= c -> a <= c -> x <= a -> x <= D ->
   (a - x) * B <= (c - B) * (c - a) ->
   B - x * (B * D / c) / D <= (c - a) + 1.
 Proof.
   intros Hc HB Ha Hx HxD Hfee.
-  pose proof (floor_pair B c x Hc HxD) as Hq.
-  set (q := x * (B * D / c) / D) in *.
-  destruct (N.le_gt_cases B q) as [Hle|Hgt]; [lia|].
-  (* work with the differences as fresh variables *)
-  assert (exists g, c = B + g) as [g Hg] by (exists (c - B); lia).
-  assert (exists R, c = a + R) as [R HR] by (exists (c - a); lia).
-  assert (exists e, a = x + e) as [e He] by (exists (a - x); lia).
-  replace (c - B) with g in Hfee by lia. replace (c - a) with R in * by lia.
-  replace (a - x) with e in Hfee by lia.
-  assert (exists t, B = q + t) as [t Ht] by (exists (B - q); lia).
-  replace (B - q) with t by lia.
-  (* t * c < R*c + 2c *)
-  assert (Hk : t * c < (R + 2) * c).
-  { assert (B * c + e * B <= B * R + g * R + x * B).
-    { assert (B * c = B * (x + e + R)) by (f_equal; lia). 
-      assert (g * R + B * R = c * R) by (rewrite Hg; lia). nia. }
-    nia. }
-  apply N.mul_lt_mono_pos_r in Hk; lia.
+  apply (redeem_dust_abs B c a x); try assumption. apply floor_pair; assumption.
 Qed.
+
+(** ** the three fee computations, copied verbatim from the handlers (the handler theorems below
+    show by conversion that these are the blocks the handlers run) *)
+Definition fee_mint_block (S Q B p m f : N) : result N :=
+  do max_fee <- mulU m f;
+  do a1 <- add128 S m;
+  do a2 <- add128 a1 Q;
+  do b1 <- add128 B p;
+  do required <- sub128 a2 b1;
+  sub128 m (peg_fee max_fee required).
+
+Definition fee_unbond_block (S Q B amount f : N) : result N :=
+  do max_fee <- mulU amount f;
+  do c <- add128 S Q;
+  do required <- sub128 c B;
+  sub128 amount (peg_fee max_fee required).
+
+Definition fee_conv_block (S Q B amount f : N) : result N :=
+  do max_fee <- mulU amount f;
+  do c <- add128 S Q;
+  do gap <- sub128 c B;
+  do required <- (if B =? 0 then Some gap
+                  else do rest <- sub128 c amount; mul_ratio gap rest B);
+  sub128 amount (peg_fee max_fee required).
+
+(** the caps *)
+Definition required_mint (S Q B p m : N) : N := (S + m + Q) - (B + p).
+Definition required_unbond (S Q B : N) : N := (S + Q) - B.
+Definition required_conv (S Q B amount : N) : N :=
+  if B =? 0 then (S + Q) - B else ((S + Q) - B) * ((S + Q) - amount) / B.
+
+Lemma fee_mint_block_spec S Q B p m f mint :
+  fee_mint_block S Q B p m f = Some mint ->
+  B + p <= S + m + Q /\
+  exists fee, fee = N.min (m * f / D) (required_mint S Q B p m) /\ fee <= m /\ mint = m - fee.
+Proof.
+  unfold fee_mint_block, peg_fee, required_mint. intros H.
+  bind_inv H as mx Hmx. bind_inv H as a1 Ha1. bind_inv H as a2 Ha2. bind_inv H as b1 Hb1.
+  bind_inv H as rq Hrq.
+  apply mulU_some in Hmx. apply add128_some in Ha1, Ha2, Hb1. apply sub128_some in Hrq, H.
+  subst mx a1 a2 b1. destruct Hrq as [Hle ->]. destruct H as [Hfee ->].
+  split; [exact Hle|]. eexists. split; [reflexivity|]. split; [exact Hfee | reflexivity].
+Qed.
+
+Lemma fee_unbond_block_spec S Q B amount f awf :
+  fee_unbond_block S Q B amount f = Some awf ->
+  B <= S + Q /\
+  exists fee, fee = N.min (amount * f / D) (required_unbond S Q B) /\ fee <= amount /\
+              awf = amount - fee.
+Proof.
+  unfold fee_unbond_block, peg_fee, required_unbond. intros H.
+  bind_inv H as mx Hmx. bind_inv H as c Hc. bind_inv H as rq Hrq.
+  apply mulU_some in Hmx. apply add128_some in Hc. apply sub128_some in Hrq, H.
+  subst mx c. destruct Hrq as [Hle ->]. destruct H as [Hfee ->].
+  split; [exact Hle|]. eexists. split; [reflexivity|]. split; [exact Hfee | reflexivity].
+Qed.
+
+Lemma fee_conv_block_spec S Q B amount f awf :
+  fee_conv_block S Q B amount f = Some awf ->
+  B <= S + Q /\ (B <> 0 -> amount <= S + Q) /\
+  exists fee, fee = N.min (amount * f / D) (required_conv S Q B amount) /\ fee <= amount /\
+              awf = amount - fee.
+Proof.
+  unfold fee_conv_block, peg_fee, required_conv. intros H.
+  bind_inv H as mx Hmx. bind_inv H as c Hc. bind_inv H as gap Hgap. bind_inv H as rq Hrq.
+  apply mulU_some in Hmx. apply add128_some in Hc. apply sub128_some in Hgap, H.
+  subst mx c. destruct Hgap as [Hle ->]. destruct H as [Hfee ->].
+  split; [exact Hle|].
+  destruct (B =? 0) eqn:HB.
+  - inversion Hrq; subst rq. split; [lia|].
+    eexists. split; [reflexivity|]. split; [exact Hfee | reflexivity].
+  - bind_inv Hrq as rest Hrest. apply sub128_some in Hrest. destruct Hrest as [Ha ->].
+    apply mul_ratio_some in Hrq. destruct Hrq as [_ ->]. split; [intros _; exact Ha|].
+    eexists. split; [reflexivity|]. split; [exact Hfee | reflexivity].
+Qed.
+
+(** ** item 4: under E1 magnitudes the fee computations cannot fail when the synchronised rate is
+    below 1 — in particular the raw subtractions [claims + mint - (backing + payment)] *)
+Lemma fits_big x : x <= D * D + 2 * D -> fits128 x = true.
+Proof.
+  intros H. unfold fits128. apply N.leb_le. eapply N.le_trans; [exact H|]. vm_compute. discriminate.
+Qed.
+
+Lemma mulU_ok a r : a * r / D <= D * D + 2 * D -> mulU a r = Some (a * r / D).
+Proof.
+  intros H. unfold mulU, narrow128. destruct ((a =? 0) || (r =? 0)) eqn:Hz.
+  - assert (Hp : a * r = 0) by (apply N.eq_mul_0; lia). rewrite Hp. reflexivity.
+  - rewrite (fits_big _ H). reflexivity.
+Qed.
+
+Lemma add128_ok a b : a + b <= D * D + 2 * D -> add128 a b = Some (a + b).
+Proof. intros H. unfold add128, narrow128. rewrite (fits_big _ H). reflexivity. Qed.
+
+Lemma sub128_ok a b : b <= a -> sub128 a b = Some (a - b).
+Proof. intros H. unfold sub128. apply N.leb_le in H. rewrite H. reflexivity. Qed.
+
+Lemma frac_le a f : f <= D -> a * f / D <= a.
+Proof.
+  intros H. apply N.div_le_upper_bound; [exact D_nz|]. rewrite (N.mul_comm D a).
+  apply N.mul_le_mono_l. exact H.
+Qed.
+
+Lemma ddiv_le_DD p r : r <> 0 -> p <= D -> p * D / r <= D * D.
+Proof.
+  intros Hr Hp. eapply N.le_trans; [|apply N.mul_le_mono_r; exact Hp].
+  apply N.div_le_upper_bound; [exact Hr|].
+  rewrite <- (N.mul_1_l (p * D)) at 1. apply N.mul_le_mono_r. lia.
+Qed.
+
+Lemma fee_mint_block_safe S Q B p m f r :
+  p <= D -> S + Q <= D -> f <= D ->
+  r = rate_of B (S + Q) -> r < D -> ddiv p r = Some m ->
+  B + p <= S + m + Q /\
+  fee_mint_block S Q B p m f = Some (m - N.min (m * f / D) (required_mint S Q B p m)).
+Proof.
+  intros Hp HC Hf Hr Hlt Hm. apply ddiv_some in Hm. destruct Hm as [Hr0 Hm].
+  rewrite Hr in Hlt. apply rate_below_one in Hlt. destruct Hlt as [HB0 HBC].
+  assert (Hpm : p <= m) by (subst m; apply ddiv_ge; [exact Hr0|]; subst r; apply rate_le_one; lia).
+  assert (HmDD : m <= D * D) by (subst m; apply ddiv_le_DD; assumption).
+  pose proof (frac_le m f Hf) as Hfr.
+  assert (Hle : B + p <= S + m + Q) by lia. split; [exact Hle|].
+  unfold fee_mint_block, peg_fee, required_mint.
+  rewrite mulU_ok by lia. cbn [bind].
+  rewrite add128_ok by lia. cbn [bind]. rewrite add128_ok by lia. cbn [bind].
+  rewrite add128_ok by lia. cbn [bind]. rewrite sub128_ok by exact Hle. cbn [bind].
+  apply sub128_ok. lia.
+Qed.
+
+Lemma fee_unbond_block_safe S Q B amount f r :
+  amount <= D -> S + Q <= D -> f <= D ->
+  r = rate_of B (S + Q) -> r < D ->
+  B <= S + Q /\
+  fee_unbond_block S Q B amount f
+    = Some (amount - N.min (amount * f / D) (required_unbond S Q B)).
+Proof.
+  intros Ha HC Hf Hr Hlt.
+  rewrite Hr in Hlt. apply rate_below_one in Hlt. destruct Hlt as [HB0 HBC].
+  pose proof (frac_le amount f Hf) as Hfr. split; [lia|].
+  unfold fee_unbond_block, peg_fee, required_unbond.
+  rewrite mulU_ok by lia. cbn [bind]. rewrite add128_ok by lia. cbn [bind].
+  rewrite sub128_ok by lia. cbn [bind]. apply sub128_ok. lia.
+Qed.
+
+Lemma fee_conv_block_safe S Q B amount f r :
+  amount <= S -> S + Q <= D -> f <= D ->
+  r = rate_of B (S + Q) -> r < D ->
+  B <= S + Q /\ amount <= S + Q /\
+  fee_conv_block S Q B amount f
+    = Some (amount - N.min (amount * f / D) (required_conv S Q B amount)).
+Proof.
+  intros Ha HC Hf Hr Hlt.
+  rewrite Hr in Hlt. apply rate_below_one in Hlt. destruct Hlt as [HB0 HBC].
+  pose proof (frac_le amount f Hf) as Hfr. split; [lia|]. split; [lia|].
+  unfold fee_conv_block, peg_fee, required_conv.
+  assert (HBz : (B =? 0) = false) by lia. rewrite HBz.
+  rewrite mulU_ok by lia. cbn [bind]. rewrite add128_ok by lia. cbn [bind].
+  rewrite sub128_ok by lia. cbn [bind]. rewrite sub128_ok by lia. cbn [bind].
+  assert (Hq : (S + Q - B) * (S + Q - amount) / B <= D * D).
+  { eapply N.le_trans; [apply N.div_le_upper_bound with (q := (S + Q - B) * (S + Q - amount)); [lia|]|].
+    - rewrite <- (N.mul_1_l ((S + Q - B) * (S + Q - amount))) at 1. apply N.mul_le_mono_r. lia.
+    - apply N.mul_le_mono; lia. }
+  unfold mul_ratio, narrow128. rewrite HBz. rewrite fits_big by lia. cbn [bind].
+  apply sub128_ok. lia.
+Qed.
+
+(** ** handlers *)
+Lemma slashing_of w self h s :
+  query_actual_state w self h = Some s -> slashing w self h = Some (set_h_state h s).
+Proof. unfold slashing. intros ->. reflexivity. Qed.
+
+(** what the bond handler computes for the minted amount *)
+Definition bond_mint (S Q B p r thr f : N) : result N :=
+  do m <- ddiv p r;
+  if r <? thr then fee_mint_block S Q B p m f else Some m.
+
+Lemma mint_path_spec S Q B p r thr f mint :
+  bond_mint S Q B p r thr f = Some mint ->
+  exists m fee,
+    ddiv p r = Some m /\ mint = m - fee /\ fee <= m /\
+    (thr <= r -> fee = 0) /\
+    (r < thr -> fee = N.min (m * f / D) (required_mint S Q B p m) /\ B + p <= S + m + Q) /\
+    fee <= m * f / D /\
+    (r = rate_of B (S + Q) -> r < D \/ B <= S + Q -> B + p <= (S + mint) + Q).
+Proof.
+  unfold bond_mint. intros H. bind_inv H as m Hm. exists m.
+  destruct (r <? thr) eqn:Hthr.
+  - apply fee_mint_block_spec in H. destruct H as (Hle & fee & Hfee & Hfm & ->).
+    exists fee. split; [reflexivity|]. split; [reflexivity|]. split; [exact Hfm|].
+    split; [lia|]. split; [intros _; split; assumption|]. split; [lia|].
+    intros _ _. unfold required_mint in Hfee. lia.
+  - inversion H; subst mint. exists 0. split; [reflexivity|]. split; [lia|]. split; [lia|].
+    split; [reflexivity|]. split; [lia|]. split; [apply N.le_0_l|].
+    intros Hr Hu. apply ddiv_some in Hm. destruct Hm as [Hr0 ->].
+    assert (HBC : B <= S + Q).
+    { destruct Hu as [Hlt|Hu]; [|exact Hu]. rewrite Hr in Hlt. apply rate_below_one in Hlt. lia. }
+    assert (p <= p * D / r); [|lia].
+    apply ddiv_ge; [exact Hr0|]. rewrite Hr. apply rate_le_one. exact HBC.
+Qed.
+
+Theorem bond_peg_fee w h self sender funds h' out s S :
+  execute_bond w h self sender funds BkB = Some (h', out) ->
+  query_actual_state w self h = Some s ->
+  hub_bsei_supply w h = Some S ->
+  let B := hs_bb s in let Q := cb_reqb (h_batch h) in let r := hs_ber s in
+  let thr := hp_thr (h_params h) in let f := hp_pegfee (h_params h) in
+  exists pay m fee dmsgs tok,
+    find_payment (hp_underlying (h_params h)) funds = Some pay /\
+    ddiv (snd pay) r = Some m /\
+    hc_bsei (h_cfg h) = Some tok /\
+    out = dmsgs ++ [MWasm tok (WCw20 (CMint sender (m - fee))) []] /\
+    fee <= m /\
+    (thr <= r -> fee = 0) /\
+    (r < thr -> fee = N.min (m * f / D) (required_mint S Q B (snd pay) m)) /\
+    fee <= m * f / D /\
+    hs_bb (h_state h') = B + snd pay /\ cb_reqb (h_batch h') = Q /\
+    hs_ber (h_state h') = rate_of (B + snd pay) ((S + (m - fee)) + Q) /\
+    (r = rate_of B (S + Q) -> r < D \/ B <= S + Q ->
+     B + snd pay <= (S + (m - fee)) + Q) /\
+    (* the computation the handler ran for the minted amount *)
+    bond_mint S Q B (snd pay) r thr f = Some (m - fee).
+Proof.
+  intros H Hs HS. cbv zeta. unfold execute_bond in H. cbv zeta in H.
+  bind_inv H as dispaddr Hd. check_inv H as Hlen.
+  bind_inv H as pay Hpay. rewrite (slashing_of _ _ _ _ Hs) in H. cbn [bind] in H.
+  cbn [h_state h_cfg h_params h_batch set_h_state] in H.
+  change (hub_bsei_supply w (set_h_state h s)) with (hub_bsei_supply w h) in H. rewrite HS in H.
+  bind_inv H as mint Hmint.
+  change (bond_mint S (cb_reqb (h_batch h)) (hs_bb s) (snd pay) (hs_ber s)
+            (hp_thr (h_params h)) (hp_pegfee (h_params h)) = Some mint) in Hmint.
+  pose proof Hmint as Hrun. apply mint_path_spec in Hmint.
+  destruct Hmint as (m & fee & Hm & -> & Hfm & Hno & Hyes & Hmax & Hover).
+  bind_inv H as supply Hsup. apply add128_some in Hsup.
+  bind_inv H as s' Hs'. bind_inv Hs' as bb Hbb. bind_inv Hs' as ber Hber.
+  apply add128_some in Hbb. apply exchange_rate_some in Hber. inversion Hs'; subst s'. clear Hs'.
+  bind_inv H as vals Hvals. destruct vals as [|v0 vr]; [discriminate|].
+  bind_inv H as dl Hdl. bind_inv H as tok Htok. inversion H; subst h' out. clear H.
+  cbn [h_cfg set_h_state] in Htok.
+  exists pay, m, fee, (delegate_msgs (v0 :: vr) (snd dl) (fst pay)), tok.
+  cbn [h_state h_batch set_h_state hs_bb hs_ber set_ber set_rates set_bonded].
+  subst bb supply ber.
+  repeat split; try assumption; try reflexivity.
+  intros Hlt. apply Hyes in Hlt. tauto.
+Qed.
+
+(** *** unbond bSei *)
+Definition unbond_awf (S Q B amount r thr f : N) : result N :=
+  if r <? thr then fee_unbond_block S Q B amount f else Some amount.
+
+Lemma unbond_path_spec S Q B amount r thr f awf :
+  unbond_awf S Q B amount r thr f = Some awf ->
+  exists fee,
+    awf = amount - fee /\ fee <= amount /\
+    (thr <= r -> fee = 0) /\
+    (r < thr -> fee = N.min (amount * f / D) (required_unbond S Q B) /\ B <= S + Q) /\
+    fee <= amount * f / D /\
+    (r = rate_of B (S + Q) -> r < D \/ B <= S + Q -> amount <= S ->
+     B <= (S - amount) + (Q + awf)).
+Proof.
+  unfold unbond_awf. intros H. destruct (r <? thr) eqn:Hthr.
+  - apply fee_unbond_block_spec in H. destruct H as (Hle & fee & Hfee & Hfm & ->).
+    exists fee. split; [reflexivity|]. split; [exact Hfm|]. split; [lia|].
+    split; [intros _; split; assumption|]. split; [lia|].
+    intros _ _ Ha. unfold required_unbond in Hfee. lia.
+  - inversion H; subst awf. exists 0. split; [lia|]. split; [lia|]. split; [reflexivity|].
+    split; [lia|]. split; [apply N.le_0_l|].
+    intros Hr Hu Ha.
+    assert (HBC : B <= S + Q); [|lia].
+    destruct Hu as [Hlt|Hu]; [|exact Hu]. rewrite Hr in Hlt. apply rate_below_one in Hlt. lia.
+Qed.
+
+Lemma maybe_undelegate_cases w self h h' msgs :
+  maybe_undelegate w self h = Some (h', msgs) ->
+  (h' = h /\ msgs = []) \/
+  (exists b_und,
+     mulU (cb_reqb (h_batch h)) (hs_ber (h_state h)) = Some b_und /\ b_und <= hs_bb (h_state h) /\
+     hs_bb (h_state h') = hs_bb (h_state h) - b_und /\ cb_reqb (h_batch h') = 0 /\
+     h_wait h' = h_wait h /\ h_cfg h' = h_cfg h).
+Proof.
+  unfold maybe_undelegate. intros H. bind_inv H as passed Hp.
+  destruct (hp_epoch (h_params h) <? passed).
+  - right. unfold process_undelegations in H.
+    bind_inv H as st_und E1. bind_inv H as b_und E2. bind_inv H as claim E3. bind_inv H as ms E4.
+    bind_inv H as bst E5. bind_inv H as bb E6. bind_inv H as id' E7. inversion H; subst h' msgs.
+    apply sub128_some in E6. destruct E6 as [Hle ->].
+    exists b_und. cbn. repeat split; try reflexivity; assumption.
+  - left. inversion H; subst. split; reflexivity.
+Qed.
+
+Theorem unbond_peg_fee w h self amount user h' out s S :
+  execute_unbond w h self amount user = Some (h', out) ->
+  query_actual_state w self h = Some s ->
+  hub_bsei_supply w h = Some S ->
+  let B := hs_bb s in let Q := cb_reqb (h_batch h) in let r := hs_ber s in
+  let thr := hp_thr (h_params h) in let f := hp_pegfee (h_params h) in
+  let id := cb_id (h_batch h) in
+  exists fee msgs tok,
+    fee <= amount /\
+    (thr <= r -> fee = 0) /\
+    (r < thr -> fee = N.min (amount * f / D) (required_unbond S Q B)) /\
+    fee <= amount * f / D /\
+    amount <= S /\
+    (* the claim recorded for the user is the amount less the fee *)
+    h_wait h' = set eqbAN (h_wait h) (user, id)
+                  (fst (wait_of h user id) + (amount - fee), snd (wait_of h user id)) /\
+    hc_bsei (h_cfg h) = Some tok /\
+    out = msgs ++ [MWasm tok (WCw20 (CBurn amount)) []] /\
+    (* pool after the fee step (before an epoch undelegation, if one is due) *)
+    (r = rate_of B (S + Q) -> r < D \/ B <= S + Q ->
+     B <= (S - amount) + (Q + (amount - fee))) /\
+    (* final state: either no undelegation was due ... or the open batch was priced and closed *)
+    ((hs_bb (h_state h') = B /\ cb_reqb (h_batch h') = Q + (amount - fee)) \/
+     (hs_bb (h_state h') =
+        B - (Q + (amount - fee)) * rate_of B ((S - amount) + (Q + (amount - fee))) / D /\
+      cb_reqb (h_batch h') = 0)) /\
+    (* the computation the handler ran for the recorded amount *)
+    unbond_awf S Q B amount r thr f = Some (amount - fee).
+Proof.
+  intros H Hs HS. cbv zeta. unfold execute_unbond in H. cbv zeta in H.
+  rewrite (slashing_of _ _ _ _ Hs) in H. cbn [bind] in H.
+  cbn [h_state h_cfg h_params h_batch set_h_state] in H.
+  change (hub_bsei_supply w (set_h_state h s)) with (hub_bsei_supply w h) in H. rewrite HS in H.
+  cbn [bind] in H.
+  bind_inv H as awf Hawf.
+  change (unbond_awf S (cb_reqb (h_batch h)) (hs_bb s) amount (hs_ber s)
+            (hp_thr (h_params h)) (hp_pegfee (h_params h)) = Some awf) in Hawf.
+  pose proof Hawf as Hrun. apply unbond_path_spec in Hawf.
+  destruct Hawf as (fee & -> & Hfm & Hno & Hyes & Hmax & Hover).
+  bind_inv H as reqb Hreqb. apply add128_some in Hreqb.
+  bind_inv H as h2 Hh2.
+  bind_inv H as supply' Hsup. apply sub128_some in Hsup. destruct Hsup as [HaS ->].
+  bind_inv H as ber Hber. apply exchange_rate_some in Hber.
+  bind_inv H as rr Hrr. destruct rr as [h4 msgs].
+  bind_inv H as tok Htok. inversion H; subst h' out. clear H.
+  (* the wait list *)
+  unfold add_wait in Hh2. unfold wait_of in *. cbn [h_wait set_h_state] in Hh2.
+  destruct (match get eqbAN (h_wait h) (user, cb_id (h_batch h)) with
+            | Some x => x | None => (0, 0) end) as [x y] eqn:Hxy.
+  bind_inv Hh2 as x' Hx'. apply add128_some in Hx'. cbn [bind] in Hh2. inversion Hh2; subst h2 x'.
+  clear Hh2.
+  apply maybe_undelegate_cases in Hrr.
+  exists fee, msgs, tok. cbn [fst snd].
+  split; [exact Hfm|]. split; [exact Hno|]. split; [intros Hlt; apply Hyes in Hlt; tauto|].
+  split; [exact Hmax|]. split; [exact HaS|].
+  destruct Hrr as [[-> ->]|(b_und & Hmul & Hle & Hbb & Hrq & Hw & Hcfg)].
+  - cbn [h_cfg set_h_batch set_h_state set_h_wait] in Htok.
+    cbn. split; [reflexivity|]. split; [exact Htok|]. split; [reflexivity|].
+    split; [intros Hr Hu; apply Hover; assumption|].
+    split; [|exact Hrun]. left. split; [reflexivity | exact Hreqb].
+  - cbn [h_state h_batch h_wait h_cfg set_h_batch set_h_state set_h_wait hs_bb hs_ber set_ber set_rates
+         cb_reqb] in *.
+    split; [exact Hw|]. split.
+    { rewrite Hcfg in Htok. exact Htok. }
+    split; [reflexivity|]. split; [intros Hr Hu; apply Hover; assumption|].
+    split; [|exact Hrun]. right. apply mulU_some in Hmul. subst b_und reqb ber. split; [exact Hbb | exact Hrq].
+Qed.
+
+(** an unbond that closes the batch prices the requests at the refreshed rate: the pool ends at
+    most one base unit above its claims *)
+Theorem unbond_final_no_overshoot w h self amount user h' out s S :
+  execute_unbond w h self amount user = Some (h', out) ->
+  query_actual_state w self h = Some s ->
+  hub_bsei_supply w h = Some S ->
+  let B := hs_bb s in let Q := cb_reqb (h_batch h) in let r := hs_ber s in
+  r = rate_of B (S + Q) -> r < D \/ B <= S + Q -> S + Q <= D ->
+  hs_bb (h_state h') <= (S - amount) + cb_reqb (h_batch h') + 1.
+Proof.
+  intros H Hs HS. cbv zeta. intros Hr Hu HE1.
+  destruct (unbond_peg_fee _ _ _ _ _ _ _ _ _ H Hs HS)
+    as (fee & msgs & tok & Hfm & _ & _ & _ & HaS & _ & _ & _ & Hover & Hfin & _).
+  cbv zeta in Hover, Hfin. specialize (Hover Hr Hu).
+  destruct Hfin as [[-> ->] | [-> ->]]; [lia|].
+  remember (hs_bb s) as B eqn:EB. remember (cb_reqb (h_batch h) + (amount - fee)) as Q' eqn:EQ.
+  remember (S - amount + Q') as c' eqn:Ec.
+  unfold rate_of. destruct ((B =? 0) || (c' =? 0)) eqn:Hz.
+  - assert (HB : B = 0) by lia. rewrite HB. rewrite N.sub_0_l. apply N.le_0_l.
+  - assert (Hd : B - Q' * (B * D / c') / D <= (c' - Q') + 1).
+    { apply redeem_dust; try lia. rewrite N.sub_diag. apply N.le_0_l. }
+    lia.
+Qed.
+
+(** *** convert stSei -> bSei : same minting computation as bond, the payment being the coin value
+    of the stSei given up *)
+Theorem conv_st_b_peg_fee w h self amount user h' out s S :
+  convert_stsei_bsei w h self amount user = Some (h', out) ->
+  query_actual_state w self h = Some s ->
+  hub_bsei_supply w h = Some S ->
+  let B := hs_bb s in let Q := cb_reqb (h_batch h) in let r := hs_ber s in
+  let thr := hp_thr (h_params h) in let f := hp_pegfee (h_params h) in
+  exists d m fee stok btok,
+    mulU amount (hs_ser s) = Some d /\
+    ddiv d r = Some m /\
+    hc_stsei (h_cfg h) = Some stok /\ hc_bsei (h_cfg h) = Some btok /\
+    out = [MWasm btok (WCw20 (CMint user (m - fee))) []; MWasm stok (WCw20 (CBurn amount)) []] /\
+    fee <= m /\
+    (thr <= r -> fee = 0) /\
+    (r < thr -> fee = N.min (m * f / D) (required_mint S Q B d m)) /\
+    fee <= m * f / D /\
+    hs_bb (h_state h') = B + d /\ cb_reqb (h_batch h') = Q /\
+    hs_ber (h_state h') = rate_of (B + d) ((S + (m - fee)) + Q) /\
+    (r = rate_of B (S + Q) -> r < D \/ B <= S + Q -> B + d <= (S + (m - fee)) + Q) /\
+    bond_mint S Q B d r thr f = Some (m - fee).
+Proof.
+  intros H Hs HS. cbv zeta. unfold convert_stsei_bsei in H. cbv zeta in H.
+  rewrite (slashing_of _ _ _ _ Hs) in H. cbn [bind] in H.
+  cbn [h_state h_cfg h_params h_batch set_h_state] in H.
+  change (hub_bsei_supply w (set_h_state h s)) with (hub_bsei_supply w h) in H. rewrite HS in H.
+  bind_inv H as stok Hstok. bind_inv H as btok Hbtok. bind_inv H as d Hd.
+  bind_inv H as m Hm. bind_inv H as ssupply Hss.
+  bind_inv H as mint Hmint.
+  assert (Hbm : bond_mint S (cb_reqb (h_batch h)) (hs_bb s) d (hs_ber s)
+                  (hp_thr (h_params h)) (hp_pegfee (h_params h)) = Some mint).
+  { unfold bond_mint. rewrite Hm. cbn [bind]. exact Hmint. }
+  clear Hmint. pose proof Hbm as Hrun. apply mint_path_spec in Hbm.
+  destruct Hbm as (m' & fee & Hm' & -> & Hfm & Hno & Hyes & Hmax & Hover).
+  rewrite Hm in Hm'. inversion Hm'; subst m'. clear Hm'.
+  bind_inv H as bb Hbb. bind_inv H as bst Hbst. bind_inv H as bsup' Hbsup.
+  bind_inv H as ber Hber. bind_inv H as ssup' Hssup. bind_inv H as ser Hser.
+  apply add128_some in Hbb, Hbsup. apply exchange_rate_some in Hber.
+  inversion H; subst h' out. clear H.
+  exists d, m, fee, stok, btok.
+  cbn [h_state h_batch set_h_state hs_bb hs_ber set_rates set_bonded].
+  subst bb bsup' ber.
+  repeat split; try assumption; try reflexivity.
+  intros Hlt. apply Hyes in Hlt. tauto.
+Qed.
+
+(** *** convert bSei -> stSei *)
+Definition conv_awf (S Q B amount r thr f : N) : result N :=
+  if r <? thr then fee_conv_block S Q B amount f else Some amount.
+
+Lemma conv_path_spec S Q B amount r thr f awf :
+  conv_awf S Q B amount r thr f = Some awf ->
+  exists fee,
+    awf = amount - fee /\ fee <= amount /\
+    (thr <= r -> fee = 0) /\
+    (r < thr -> fee = N.min (amount * f / D) (required_conv S Q B amount) /\
+                B <= S + Q /\ (B <> 0 -> amount <= S + Q)) /\
+    fee <= amount * f / D /\
+    (r = rate_of B (S + Q) -> r < D \/ B <= S + Q -> amount <= S -> amount <= D ->
+     B - awf * r / D <= ((S - amount) + Q) + 1).
+Proof.
+  unfold conv_awf. intros H.
+  assert (Hcore : forall fee, fee <= amount ->
+            (B <> 0 -> fee * B <= (S + Q - B) * (S + Q - amount)) ->
+            r = rate_of B (S + Q) -> r < D \/ B <= S + Q -> amount <= S -> amount <= D ->
+            B - (amount - fee) * r / D <= ((S - amount) + Q) + 1).
+  { intros fee Hfm Hcap Hr Hu HaS HaD.
+    assert (HBC : B <= S + Q).
+    { destruct Hu as [Hlt|Hu]; [|exact Hu]. rewrite Hr in Hlt. apply rate_below_one in Hlt. lia. }
+    rewrite Hr. unfold rate_of. destruct ((B =? 0) || (S + Q =? 0)) eqn:Hz.
+    - assert (HB : B = 0) by lia. rewrite HB. rewrite N.sub_0_l. apply N.le_0_l.
+    - assert (Hd : B - (amount - fee) * (B * D / (S + Q)) / D <= (S + Q - amount) + 1).
+      { apply redeem_dust; try lia.
+        replace (amount - (amount - fee)) with fee by lia. apply Hcap. lia. }
+      lia. }
+  destruct (r <? thr) eqn:Hthr.
+  - apply fee_conv_block_spec in H. destruct H as (Hle & Ha & fee & Hfee & Hfm & ->).
+    exists fee. split; [reflexivity|]. split; [exact Hfm|]. split; [lia|].
+    split; [intros _; repeat split; assumption|]. split; [lia|].
+    apply Hcore; [exact Hfm|]. intros HB.
+    assert (Hrq : fee <= (S + Q - B) * (S + Q - amount) / B).
+    { unfold required_conv in Hfee. assert (HBz : (B =? 0) = false) by lia. rewrite HBz in Hfee. lia. }
+    eapply N.le_trans; [apply N.mul_le_mono_r; exact Hrq|].
+    rewrite N.mul_comm. apply N.mul_div_le. exact HB.
+  - inversion H; subst awf. exists 0. split; [lia|]. split; [lia|]. split; [reflexivity|].
+    split; [lia|]. split; [apply N.le_0_l|].
+    intros Hr Hu HaS HaD.
+    assert (X : B - (amount - 0) * r / D <= S - amount + Q + 1).
+    { apply Hcore; try assumption; [lia|]. intros _. apply N.le_0_l. }
+    rewrite N.sub_0_r in X. exact X.
+Qed.
+
+Theorem conv_b_st_peg_fee w h self amount user h' out s S :
+  convert_bsei_stsei w h self amount user = Some (h', out) ->
+  query_actual_state w self h = Some s ->
+  hub_bsei_supply w h = Some S ->
+  let B := hs_bb s in let Q := cb_reqb (h_batch h) in let r := hs_ber s in
+  let thr := hp_thr (h_params h) in let f := hp_pegfee (h_params h) in
+  exists fee d to_mint stok btok,
+    fee <= amount /\
+    (thr <= r -> fee = 0) /\
+    (r < thr -> fee = N.min (amount * f / D) (required_conv S Q B amount)) /\
+    fee <= amount * f / D /\
+    mulU (amount - fee) r = Some d /\
+    ddiv d (hs_ser s) = Some to_mint /\
+    (* the user never receives more stSei than without a fee *)
+    to_mint <= (amount * r / D) * D / hs_ser s /\
+    hc_stsei (h_cfg h) = Some stok /\ hc_bsei (h_cfg h) = Some btok /\
+    out = [MWasm stok (WCw20 (CMint user to_mint)) []; MWasm btok (WCw20 (CBurn amount)) []] /\
+    amount <= S /\ d <= B /\
+    hs_bb (h_state h') = B - d /\ cb_reqb (h_batch h') = Q /\
+    hs_ber (h_state h') = rate_of (B - d) ((S - amount) + Q) /\
+    (r = rate_of B (S + Q) -> r < D \/ B <= S + Q -> amount <= D ->
+     B - d <= ((S - amount) + Q) + 1) /\
+    conv_awf S Q B amount r thr f = Some (amount - fee).
+Proof.
+  intros H Hs HS. cbv zeta. unfold convert_bsei_stsei in H. cbv zeta in H.
+  rewrite (slashing_of _ _ _ _ Hs) in H. cbn [bind] in H.
+  cbn [h_state h_cfg h_params h_batch set_h_state] in H.
+  change (hub_bsei_supply w (set_h_state h s)) with (hub_bsei_supply w h) in H. rewrite HS in H.
+  bind_inv H as stok Hstok. bind_inv H as btok Hbtok. cbn [bind] in H.
+  bind_inv H as ssupply Hss.
+  bind_inv H as awf Hawf.
+  change (conv_awf S (cb_reqb (h_batch h)) (hs_bb s) amount (hs_ber s)
+            (hp_thr (h_params h)) (hp_pegfee (h_params h)) = Some awf) in Hawf.
+  pose proof Hawf as Hrun. apply conv_path_spec in Hawf.
+  destruct Hawf as (fee & -> & Hfm & Hno & Hyes & Hmax & Hover).
+  bind_inv H as d Hd. bind_inv H as to_mint Htm.
+  bind_inv H as bb Hbb. bind_inv H as bst Hbst. bind_inv H as bsup' Hbsup.
+  bind_inv H as ber Hber. bind_inv H as ssup' Hssup. bind_inv H as ser Hser.
+  apply sub128_some in Hbb, Hbsup. destruct Hbb as [HdB ->]. destruct Hbsup as [HaS ->].
+  apply exchange_rate_some in Hber.
+  inversion H; subst h' out. clear H.
+  exists fee, d, to_mint, stok, btok.
+  cbn [h_state h_batch set_h_state hs_bb hs_ber set_rates set_bonded].
+  pose proof (mulU_some _ _ _ Hd) as Hdv.
+  split; [exact Hfm|]. split; [exact Hno|]. split; [intros Hlt; apply Hyes in Hlt; tauto|].
+  split; [exact Hmax|]. split; [exact Hd|]. split; [exact Htm|].
+  split.
+  { apply ddiv_some in Htm. destruct Htm as [Hs0 ->].
+    apply N.div_le_mono; [exact Hs0|]. apply N.mul_le_mono_r. subst d.
+    apply N.div_le_mono; [exact D_nz|]. apply N.mul_le_mono_r. lia. }
+  split; [reflexivity|]. split; [reflexivity|]. split; [reflexivity|].
+  split; [exact HaS|]. split; [exact HdB|]. split; [reflexivity|]. split; [reflexivity|].
+  split; [exact Hber|]. split; [|exact Hrun].
+  intros Hr Hu HaD. subst d. apply Hover; assumption.
+Qed.
+
+(** ** the synchronised state carries the reported rate whenever [query_actual_state] recomputes
+    (some delegation exists and something is booked); in the remaining cases the stored rate is
+    returned unchanged and [hs_ber s = rate_of ...] is an invariant of the history (C03) *)
+Lemma slashing_synced w self h s :
+  query_actual_state w self h = Some s ->
+  all_delegations (w_env w) self <> [] ->
+  hs_bb (h_state h) + hs_bst (h_state h) <> 0 ->
+  exists S, hub_bsei_supply w h = Some S /\
+            hs_ber s = rate_of (hs_bb s) (S + cb_reqb (h_batch h)).
+Proof.
+  unfold query_actual_state. intros H Hd Hb.
+  destruct (all_delegations (w_env w) self) as [|d0 dr]; [contradiction Hd; reflexivity|].
+  bind_inv H as actual Hact. bind_inv H as total Htot. apply add128_some in Htot.
+  destruct (total =? 0) eqn:Hz; [lia|].
+  bind_inv H as bissued Hbi. bind_inv H as sissued Hsi. bind_inv H as s1 Hs1.
+  bind_inv H as ber Hber. bind_inv H as ser Hser. inversion H; subst s. clear H.
+  apply exchange_rate_some in Hber. exists bissued. split; [reflexivity|]. exact Hber.
+Qed.
+
+(** ** item 4 at the level of the handlers' fee paths *)
+Lemma bond_mint_safe S Q B p r thr f m :
+  p <= D -> S + Q <= D -> f <= D -> thr <= D ->
+  r = rate_of B (S + Q) -> ddiv p r = Some m ->
+  bond_mint S Q B p r thr f
+    = Some (if r <? thr then m - N.min (m * f / D) (required_mint S Q B p m) else m).
+Proof.
+  intros Hp HC Hf Ht Hr Hm. unfold bond_mint. rewrite Hm. cbn [bind].
+  destruct (r <? thr) eqn:E; [|reflexivity].
+  apply (fee_mint_block_safe S Q B p m f r); try assumption. lia.
+Qed.
+
+Lemma unbond_awf_safe S Q B amount r thr f :
+  amount <= D -> S + Q <= D -> f <= D -> thr <= D ->
+  r = rate_of B (S + Q) ->
+  unbond_awf S Q B amount r thr f
+    = Some (if r <? thr then amount - N.min (amount * f / D) (required_unbond S Q B) else amount).
+Proof.
+  intros Ha HC Hf Ht Hr. unfold unbond_awf.
+  destruct (r <? thr) eqn:E; [|reflexivity].
+  apply (fee_unbond_block_safe S Q B amount f r); try assumption. lia.
+Qed.
+
+Lemma conv_awf_safe S Q B amount r thr f :
+  amount <= S -> S + Q <= D -> f <= D -> thr <= D ->
+  r = rate_of B (S + Q) ->
+  conv_awf S Q B amount r thr f
+    = Some (if r <? thr then amount - N.min (amount * f / D) (required_conv S Q B amount)
+            else amount).
+Proof.
+  intros Ha HC Hf Ht Hr. unfold conv_awf.
+  destruct (r <? thr) eqn:E; [|reflexivity].
+  apply (fee_conv_block_safe S Q B amount f r); try assumption. lia.
+Qed.
+
+(** the three fee paths written out (they are the handlers' own code, see the last conjunct of
+    the four handler theorems) *)
+Lemma bond_mint_def S Q B p r thr f :
+  bond_mint S Q B p r thr f =
+    (do m <- ddiv p r;
+     if r <? thr then
+       do max_fee <- mulU m f;
+       do a1 <- add128 S m;
+       do a2 <- add128 a1 Q;
+       do b1 <- add128 B p;
+       do required <- sub128 a2 b1;
+       sub128 m (N.min max_fee required)
+     else Some m).
+Proof. reflexivity. Qed.
+
+Lemma unbond_awf_def S Q B amount r thr f :
+  unbond_awf S Q B amount r thr f =
+    (if r <? thr then
+       do max_fee <- mulU amount f;
+       do c <- add128 S Q;
+       do required <- sub128 c B;
+       sub128 amount (N.min max_fee required)
+     else Some amount).
+Proof. reflexivity. Qed.
+
+Lemma conv_awf_def S Q B amount r thr f :
+  conv_awf S Q B amount r thr f =
+    (if r <? thr then
+       do max_fee <- mulU amount f;
+       do c <- add128 S Q;
+       do gap <- sub128 c B;
+       do required <- (if B =? 0 then Some gap
+                       else do rest <- sub128 c amount; mul_ratio gap rest B);
+       sub128 amount (N.min max_fee required)
+     else Some amount).
+Proof. reflexivity. Qed.
+
+(** ** non-vacuity: a concrete under-pegged world (E1, E4-wired hub, synchronised rate 0.999).
+    bSei: 1 000 000 tokens (holder 20), no pending requests, 999 000 coins booked;
+    stSei: 2 000 000 tokens, 2 000 000 coins booked; 2 999 000 delegated (nothing to slash);
+    peg fee 0.5 %, threshold 1.0; epoch 100 not elapsed in [hf_w], elapsed in [hf_wc]. *)
+Definition hf_cfg : hub_config :=
+  mkHubConfig A_owner A_owner (Some A_disp) (Some A_reg) (Some A_bsei) (Some A_stsei) None None.
+Definition hf_params : hub_params := mkHubParams 100 usei 100 5000000000000000 D usei (Some false).
+Definition hf_tok (s : N) : token := mkToken A_hub s (Some (A_hub, None)) [(20, s)] [].
+Definition hf_hub (lut : N) : hub :=
+  mkHub hf_cfg (mkHubState D D 999000 2000000 0 0 lut 0) hf_params (mkBatch 1 0 0) A_owner [] [] [].
+Definition hf_world (h : hub) : world :=
+  mkWorld (Some h) None None (Some (mkReg A_owner A_hub [0; 1] A_owner))
+          (Some (hf_tok 1000000)) (Some (hf_tok 2000000))
+          (set_del (empty_env 100) [((A_hub, 0), 1499000); ((A_hub, 1), 1500000)]).
+Definition hf_h : hub := hf_hub 1000000.     (* last undelegation = now : epoch not elapsed *)
+Definition hf_hc : hub := hf_hub 0.          (* epoch elapsed: the next unbond closes the batch *)
+Definition hf_w : world := hf_world hf_h.
+Definition hf_wc : world := hf_world hf_hc.
+Definition hf_s : hub_state := mkHubState 999000000000000000 D 999000 2000000 0 0 1000000 0.
+
+Ltac hf_conc := vm_compute; first [reflexivity | let X := fresh in intro X; discriminate X].
+Ltac hf_split := repeat match goal with |- _ /\ _ => split end.
+
+(** the hypotheses shared by all handler theorems hold in this world *)
+Example hf_world_nonvacuous :
+  query_actual_state hf_w A_hub hf_h = Some hf_s /\
+  hub_bsei_supply hf_w hf_h = Some 1000000 /\
+  all_delegations (w_env hf_w) A_hub <> [] /\
+  hs_bb (h_state hf_h) + hs_bst (h_state hf_h) <> 0 /\
+  hs_ber hf_s = rate_of (hs_bb hf_s) (1000000 + cb_reqb (h_batch hf_h)) /\
+  hs_ber hf_s < D /\ hs_ber hf_s < hp_thr (h_params hf_h) /\
+  hp_thr (h_params hf_h) <= D /\ hp_pegfee (h_params hf_h) <= D /\
+  1000000 + cb_reqb (h_batch hf_h) <= D.
+Proof. hf_split; hf_conc. Qed.
+
+(** what the examples observe of a handler result: backing, open-batch requests and stored rate of
+    the resulting hub, and the emitted messages *)
+Definition hf_obs (x : result (hub * list cmsg)) : result (N * N * N * list cmsg) :=
+  option_map (fun y => (hs_bb (h_state (fst y)), cb_reqb (h_batch (fst y)), hs_ber (h_state (fst y)),
+                        snd y)) x.
+Definition hf_wait (x : result (hub * list cmsg)) (u : addr) (b : N) : result (N * N) :=
+  option_map (fun y => wait_of (fst y) u b) x.
+
+(** bSei -> stSei, the restoring cap binds: converting half the supply, proportional cap 2 500,
+    restoring cap 1000 * 500 000 / 999 000 = 500; the pool ends exactly at the peg
+    (500 000 coins for 1 000 000 - 500 000 tokens, rate 1.0) *)
+Example conv_b_st_restoring_cap_nonvacuous :
+  hf_obs (convert_bsei_stsei hf_w hf_h A_hub 500000 20) =
+    Some (500000, 0, D,
+          [MWasm A_stsei (WCw20 (CMint 20 499000)) []; MWasm A_bsei (WCw20 (CBurn 500000)) []]) /\
+  500000 * hp_pegfee (h_params hf_h) / D = 2500 /\
+  required_conv 1000000 0 999000 500000 = 500 /\
+  mulU (500000 - 500) (hs_ber hf_s) = Some 499000.
+Proof. hf_split; hf_conc. Qed.
+
+(** bSei -> stSei, the proportional cap binds: 1 000 tokens, caps 5 and 1 000; 998 006 coins stay
+    for 999 000 tokens *)
+Example conv_b_st_proportional_cap_nonvacuous :
+  hf_obs (convert_bsei_stsei hf_w hf_h A_hub 1000 20) =
+    Some (998006, 0, rate_of 998006 999000,
+          [MWasm A_stsei (WCw20 (CMint 20 994)) []; MWasm A_bsei (WCw20 (CBurn 1000)) []]) /\
+  1000 * hp_pegfee (h_params hf_h) / D = 5 /\
+  required_conv 1000000 0 999000 1000 = 1000 /\
+  mulU (1000 - 5) (hs_ber hf_s) = Some 994.
+Proof. hf_split; hf_conc. Qed.
+
+(** F1 (fixed in /repo): with the former cap (the whole coin gap, 1 000) the same conversion of
+    500 000 tokens would have withheld 1 000 tokens, released 498 501 coins and left 500 499 coins
+    backing 500 000 claims *)
+Example F1_former_cap_overshoot_witness :
+  let r := rate_of 999000 1000000 in
+  let fee := N.min (500000 * 5000000000000000 / D) (1000000 - 999000) in
+  fee = 1000 /\ 999000 - (500000 - fee) * r / D = 500499 /\ (1000000 - 500000) + 2 < 500499.
+Proof. cbv zeta. hf_split; hf_conc. Qed.
+
+(** bond: 100 000 coins, proportional cap (500 of 100 100) binds; 10 000 000 coins, the restoring
+    cap (11 010 of 10 010 010) binds and the pool ends exactly at the peg
+    (10 999 000 coins for 1 000 000 + 9 999 000 tokens) *)
+Example bond_caps_nonvacuous :
+  hf_obs (execute_bond hf_w hf_h A_hub 20 [(usei, 100000)] BkB) =
+    Some (1099000, 0, rate_of 1099000 1099600,
+          [MDelegate 0 (usei, 50500); MDelegate 1 (usei, 49500);
+           MWasm A_bsei (WCw20 (CMint 20 99600)) []]) /\
+  ddiv 100000 (hs_ber hf_s) = Some 100100 /\
+  100100 * hp_pegfee (h_params hf_h) / D = 500 /\
+  required_mint 1000000 0 999000 100000 100100 = 1100 /\
+  hf_obs (execute_bond hf_w hf_h A_hub 20 [(usei, 10000000)] BkB) =
+    Some (10999000, 0, D,
+          [MDelegate 0 (usei, 5000500); MDelegate 1 (usei, 4999500);
+           MWasm A_bsei (WCw20 (CMint 20 9999000)) []]) /\
+  ddiv 10000000 (hs_ber hf_s) = Some 10010010 /\
+  10010010 * hp_pegfee (h_params hf_h) / D = 50050 /\
+  required_mint 1000000 0 999000 10000000 10010010 = 11010.
+Proof. hf_split; hf_conc. Qed.
+
+(** unbond: 1 000 tokens (proportional cap 5 binds), 500 000 tokens (restoring cap 1 000 binds:
+    999 000 coins for 500 000 tokens + 499 000 requested); with the epoch elapsed the batch is
+    closed and priced at the refreshed rate 1.0 (500 000 coins for 500 000 tokens) *)
+Example unbond_caps_nonvacuous :
+  hf_obs (execute_unbond hf_w hf_h A_hub 1000 20) =
+    Some (999000, 995, rate_of 999000 (999000 + 995), [MWasm A_bsei (WCw20 (CBurn 1000)) []]) /\
+  hf_wait (execute_unbond hf_w hf_h A_hub 1000 20) 20 1 = Some (995, 0) /\
+  hf_obs (execute_unbond hf_w hf_h A_hub 500000 20) =
+    Some (999000, 499000, D, [MWasm A_bsei (WCw20 (CBurn 500000)) []]) /\
+  hf_wait (execute_unbond hf_w hf_h A_hub 500000 20) 20 1 = Some (499000, 0) /\
+  hf_obs (execute_unbond hf_wc hf_hc A_hub 500000 20) =
+    Some (500000, 0, D,
+          [MUndelegate 1 (usei, 250000); MUndelegate 0 (usei, 249000);
+           MWasm A_bsei (WCw20 (CBurn 500000)) []]) /\
+  query_actual_state hf_wc A_hub hf_hc = Some (mkHubState 999000000000000000 D 999000 2000000 0 0 0 0).
+Proof. hf_split; hf_conc. Qed.
+
+(** stSei -> bSei: 100 000 stSei (rate 1.0) are worth 100 000 coins; as for the bond above *)
+Example conv_st_b_nonvacuous :
+  hf_obs (convert_stsei_bsei hf_w hf_h A_hub 100000 20) =
+    Some (1099000, 0, rate_of 1099000 1099600,
+          [MWasm A_bsei (WCw20 (CMint 20 99600)) []; MWasm A_stsei (WCw20 (CBurn 100000)) []]).
+Proof. hf_conc. Qed.
+
+(** the dust of [conv_b_st_peg_fee] is attained: backing 1 below claims, no fee possible, two
+    floors leave the pool one unit above its claims *)
+Example conv_b_st_dust_tight :
+  let S := 880487297567475966 in let Q := 79675463696223508 in
+  let B := 960162761263699473 in let a := 877313011780552874 in
+  B + 1 = S + Q /\ required_conv S Q B a = 0 /\ a <= S /\ S + Q <= D /\
+  B - a * rate_of B (S + Q) / D = (S - a) + Q + 1.
+Proof. cbv zeta. hf_split; hf_conc. Qed.
